@@ -462,7 +462,7 @@ class History:
         rec = self.ctx.rec
         kinds = ["iadd_incompatible", "iadd_other_dim", "iadd_nonhist", "iadd_array", "imul_negative", "imul_hist", "idiv_hist", "isub_more",
                  "fill_n_weight_shape", "fill_n_cols", "set_dtype_invalid", "set_dtype_lossy", "fill_bad_weight", "merge_bad_amount",
-                 "mul_array", "rdiv", "array_after_free_block", "idiv_zero", "normalize_empty_inplace", "fill_weight_square_overflow", "isub_more_in_bins_only", "isub_missed_from_untracked"]
+                 "mul_array", "rdiv", "array_after_free_block", "idiv_zero", "normalize_empty_inplace", "fill_weight_square_overflow", "isub_more_in_bins_only", "isub_missed_from_untracked", "free_scale_by_narrow_int_array"]
         if h.ndim >= 2:
             kinds += ["projection_bad", "select_bad", "fill_wrong_dim"]
             if h.is_adaptive() and all(len(np.asarray(b)) > 0 for b in h.bins):
@@ -506,6 +506,34 @@ class History:
                     h += rng.choice(["text", None, 3.5, {"a": 1}])
                 elif k == "iadd_array":
                     h += np.ones(h.shape)
+                elif k == "free_scale_by_narrow_int_array":
+                    # under free arithmetics: an array of factors in a compact integer type whose squares leave that type - scaled as a
+                    # whole (squared errors by the squares of the numbers) or refused as a whole
+                    from physt.config import config as _cfg
+
+                    must = False
+                    if int(np.prod(h.shape)) == 0 or float(np.max(np.abs(np.asarray(h.frequencies, dtype=float)), initial=0)) > 1e6:
+                        return
+                    adt = rng.choice([np.int16, np.int32])
+                    big = 200 if adt is np.int16 else 50000
+                    arr = np.ones(h.shape, dtype=adt)
+                    arr.flat[0] = big
+                    with attach.quiet():
+                        e0_ = float(np.asarray(h.errors2, dtype=float).flat[0])
+                        f0_ = float(np.asarray(h.frequencies, dtype=float).flat[0])
+                    with _cfg.enable_free_arithmetics():
+                        if rng.random() < 0.5:
+                            h *= arr
+                            want_f, want_e = f0_ * big, e0_ * big * big
+                        else:
+                            h /= arr
+                            want_f, want_e = f0_ / big, e0_ / big / big
+                    with attach.quiet():
+                        got_e = float(np.asarray(h.errors2, dtype=float).flat[0])
+                        got_f = float(np.asarray(h.frequencies, dtype=float).flat[0])
+                        if not (math.isnan(e0_) or math.isnan(f0_)) and (abs(got_e - want_e) > 1e-9 * abs(want_e) + 1e-300 or abs(got_f - want_f) > 1e-9 * abs(want_f) + 1e-300):
+                            rec.fail(prop="C18", monitor="C18.world.wellformed", op="*= / /= array (free arithmetics)", symptom="scaling by an array of compact integers: squared errors scaled by squares taken modulo the array's type",
+                                     diff=["errors2"], detail={"array_dtype": np.dtype(adt).name, "factor": big, "errors2": got_e, "expected": want_e, "content": got_f, "expected_content": want_f})
                 elif k == "mul_array":
                     _ = h * np.ones(h.shape)
                 elif k == "isub_more_in_bins_only":
